@@ -1356,3 +1356,110 @@ Theorem nb_model_local : forall fmt reqs,
 Proof.
   intros. unfold nb_model. rewrite req_status_local. rewrite nb_assign_local. reflexivity.
 Qed.
+
+(* ---------- blocking put_varn and mput: the posted requests are completed ---------- *)
+Definition put_conv (fmt xi ii : Z) (cs : list Z) : Z * list (Z * Z) := api_model false true fmt xi ii false 0 cs.
+Definition st_ok (st : Z) : Prop := st = NC_NOERR \/ st = NC_ERANGE.
+
+(* ncmpio_put_varn as built (`varn_gate` is translated from ncmpio_varn.c): in collective and in independent
+   mode the request is completed (nothing pending, close succeeds), every element is transferred by the
+   element rule and the call returns the conversion status *)
+Theorem varn_repaired_complete : forall indep fmt xi ii cs,
+  varn_model_g VarnEarlyFatal indep fmt xi ii cs =
+    (fst (put_conv fmt xi ii cs), 0, NC_NOERR, snd (put_conv fmt xi ii cs)).
+Proof.
+  intros. unfold varn_model_g, put_conv. destruct (api_model false true fmt xi ii false 0 cs). reflexivity.
+Qed.
+Theorem varn_complete : forall indep fmt xi ii cs,
+  varn_model indep fmt xi ii cs = (fst (put_conv fmt xi ii cs), 0, NC_NOERR, snd (put_conv fmt xi ii cs)).
+Proof. intros. unfold varn_model, varn_gate. apply varn_repaired_complete. Qed.
+(* the form before the repair (return as soon as the posting reports NC_ERANGE in independent mode):
+   witness ncmpi_put_varn_int to NC_SHORT with -32769: request left pending, nothing written *)
+Theorem varn_early_any_refuted :
+  ~ (forall indep fmt xi ii cs,
+       varn_model_g VarnEarlyAny indep fmt xi ii cs =
+         (fst (put_conv fmt xi ii cs), 0, NC_NOERR, snd (put_conv fmt xi ii cs))).
+Proof. intros H. specialize (H true 5 2 4 [-32769; -126]). vm_compute in H. discriminate H. Qed.
+Example ex_varn_early_any :
+  varn_model_g VarnEarlyAny true 5 2 4 [-32769; -126] = (NC_ERANGE, 1, NC_EPENDING, [(2, 0); (2, 0)]) /\
+  varn_model_g VarnEarlyAny false 5 2 4 [-32769; -126] = (NC_ERANGE, 0, NC_NOERR, [(1, -32767); (0, -126)]) /\
+  varn_model true 5 2 4 [-32769; -126] = (NC_ERANGE, 0, NC_NOERR, [(1, -32767); (0, -126)]).
+Proof. vm_compute. repeat split. Qed.
+
+Lemma run_route_status : forall r dst fp vs,
+  (forall f, r = RtEntry (Some f) -> In f ncx_table) -> r <> RtEchar -> st_ok (fst (run_route r dst fp vs)).
+Proof.
+  intros r dst fp vs Hin Hne. destruct r as [| | | [f |]]; cbn [run_route fst]; try (left; reflexivity).
+  - congruence.
+  - rewrite convn_elementwise by (apply Hin; reflexivity). cbn [fst].
+    destruct (existsb res_is_range (map (conv1 f fp) vs)); [right | left]; reflexivity.
+Qed.
+
+Lemma put_conv_status : forall fmt xi ii cs, 0 <= xi < 10 -> 0 <= ii < 11 -> st_ok (fst (put_conv fmt xi ii cs)).
+Proof.
+  intros fmt xi ii cs Hx Hi. unfold put_conv, api_model.
+  assert (Ex : exists x, nct_of xi = NNum x).
+  { unfold nct_of. destruct (nth_error all_x (Z.to_nat xi)) eqn:E; [eauto|].
+    apply nth_error_None in E. cbn in E. lia. }
+  assert (Et : exists t, mty_of ii = MNum t).
+  { unfold mty_of. destruct (nth_error all_i (Z.to_nat ii)) eqn:E; [eauto|].
+    apply nth_error_None in E. cbn in E. lia. }
+  destruct Ex as [x Ex]. destruct Et as [t Et]. rewrite Ex, Et. cbn [api_types].
+  set (vs := map (val_of_code (api_src Put x t)) cs).
+  assert (S : st_ok (fst (api_var fmt Put (NNum x) (MNum t) None vs))).
+  { unfold api_var. apply run_route_status.
+    - intros f Hf. unfold route_var in Hf.
+      destruct ((fmt <? 5) && xty_eqb x XBYTE && cty_eqb t Uchar); [discriminate|].
+      destruct (same_type x t); [destruct (xsize x =? 1); discriminate|].
+      injection Hf as Hf. eapply lookup_in; eauto.
+    - unfold route_var. destruct ((fmt <? 5) && xty_eqb x XBYTE && cty_eqb t Uchar); [discriminate|].
+      destruct (same_type x t); [destruct (xsize x =? 1); discriminate | discriminate]. }
+  destruct (api_var fmt Put (NNum x) (MNum t) None vs) as [st rs]. exact S.
+Qed.
+
+Lemma mput_cont_loop_spec : forall fmt xi ii vars er,
+  (forall cs, In cs vars -> st_ok (fst (put_conv fmt xi ii cs))) ->
+  mput_cont_loop fmt xi ii vars er =
+    (NC_NOERR,
+     (if existsb (fun cs => fst (put_conv fmt xi ii cs) =? NC_ERANGE) vars then NC_ERANGE else er),
+     flat_map (fun cs => snd (put_conv fmt xi ii cs)) vars).
+Proof.
+  intros fmt xi ii. induction vars as [| cs r IH]; intros er H; [reflexivity|].
+  cbn [mput_cont_loop existsb flat_map]. unfold put_conv in *.
+  pose proof (H cs (or_introl eq_refl)) as Hc.
+  assert (Hr : forall c, In c r -> st_ok (fst (api_model false true fmt xi ii false 0 c))) by (intros; apply H; right; auto).
+  destruct (api_model false true fmt xi ii false 0 cs) as [st rs] eqn:E. cbn [fst snd] in *.
+  destruct Hc as [Hc | Hc]; subst st.
+  - change (NC_NOERR =? NC_ERANGE) with false. change (NC_NOERR =? NC_NOERR) with true. cbv iota.
+    rewrite (IH er Hr). reflexivity.
+  - change (NC_ERANGE =? NC_ERANGE) with true. cbv iota. rewrite (IH NC_ERANGE Hr). cbn [orb].
+    destruct (existsb _ r); reflexivity.
+Qed.
+
+(* ncmpi_mput_var_<T>[_all] as built (`mput_gate` is translated from dispatchers/var_getput.c): every variable is
+   posted and completed, every element of every variable is transferred by the element rule, and the call
+   returns NC_ERANGE iff some variable has an element that is out of range *)
+Theorem mput_complete : forall fmt xi ii vars, 0 <= xi < 10 -> 0 <= ii < 11 ->
+  mput_model fmt xi ii vars =
+    ((if existsb (fun cs => fst (put_conv fmt xi ii cs) =? NC_ERANGE) vars then NC_ERANGE else NC_NOERR),
+     0, NC_NOERR, flat_map (fun cs => snd (put_conv fmt xi ii cs)) vars).
+Proof.
+  intros fmt xi ii vars Hx Hi. unfold mput_model, mput_gate, mput_model_g.
+  rewrite mput_cont_loop_spec by (intros; apply put_conv_status; assumption).
+  change (NC_NOERR =? NC_NOERR) with true. reflexivity.
+Qed.
+(* the loop before the repair (left at the first status <> NC_NOERR): witness 3 NC_SHORT variables written
+   from int, the second holds 70000: its request stays pending, the third variable is never written *)
+Theorem mput_break_any_refuted :
+  ~ (forall fmt xi ii vars, 0 <= xi < 10 -> 0 <= ii < 11 ->
+       mput_model_g MputBreakAny fmt xi ii vars =
+         ((if existsb (fun cs => fst (put_conv fmt xi ii cs) =? NC_ERANGE) vars then NC_ERANGE else NC_NOERR),
+          0, NC_NOERR, flat_map (fun cs => snd (put_conv fmt xi ii cs)) vars)).
+Proof.
+  intros H. specialize (H 5 2 4 [[1]; [70000]; [2]] ltac:(lia) ltac:(lia)). vm_compute in H. discriminate H.
+Qed.
+Example ex_mput :
+  mput_model_g MputBreakAny 5 2 4 [[1]; [70000]; [2]] = (NC_ERANGE, 1, NC_EPENDING, [(0, 1); (2, 0); (2, 0)]) /\
+  mput_model 5 2 4 [[1]; [70000]; [2]] = (NC_ERANGE, 0, NC_NOERR, [(0, 1); (1, -32767); (0, 2)]) /\
+  mput_model 5 2 4 [[1]; [7]; [2]] = (NC_NOERR, 0, NC_NOERR, [(0, 1); (0, 7); (0, 2)]).
+Proof. vm_compute. repeat split. Qed.
